@@ -5,7 +5,7 @@ from .p_common import TB, PROFILES
 
 def check():
     return solvercheck.run(
-        "C11", None,
+        "C11", "C11.v",
         [dict(profile=PROFILES["steps"], n_quick=300, n_thorough=5000),
          dict(profile=PROFILES["plain"], n_quick=60, n_thorough=1000)],
         [oracles.oracle_C11, oracles.oracle_shapes], TB,
